@@ -50,6 +50,33 @@ func c13model(c *Ctx) {
 	it.maxLoop = 200
 	distF := c.P.Func("geom", "distPointToSegment")
 	simpleF := c.P.Func("geom", "segMakesNotSimple")
+	// the anchors by signature when the names are gone: the deviation measure is a
+	// (Point, Point, Point) float64 function, the simplicity test a (Point, Point, paths) bool one
+	for _, f := range c.P.RepoFuncs() {
+		if c.P.DeclPkg(f) != c.P.Pkg("geom") || c.P.Decl(f) == nil {
+			continue
+		}
+		sig := f.Type().(*types.Signature)
+		if sig.Recv() != nil || sig.Params().Len() != 3 || sig.Results().Len() != 1 {
+			continue
+		}
+		p0, p1, p2 := sig.Params().At(0).Type(), sig.Params().At(1).Type(), sig.Params().At(2).Type()
+		if !types.Identical(p0, m.ptT) || !types.Identical(p1, m.ptT) {
+			continue
+		}
+		if distF == nil && types.Identical(p2, m.ptT) && isFloat64(sig.Results().At(0).Type()) {
+			distF = f
+		}
+		if simpleF == nil {
+			if rb, ok := sig.Results().At(0).Type().Underlying().(*types.Basic); ok && rb.Kind() == types.Bool {
+				if sl, ok := p2.Underlying().(*types.Slice); ok {
+					if inner, ok := sl.Elem().Underlying().(*types.Slice); ok && types.Identical(inner.Elem(), m.ptT) {
+						simpleF = f
+					}
+				}
+			}
+		}
+	}
 	lsSimplify, _, _ := types.LookupFieldOrMethod(m.lsT, true, c.P.Pkg("geom").Types, "Simplify")
 	polySimplify, _, _ := types.LookupFieldOrMethod(m.polyT, true, c.P.Pkg("geom").Types, "Simplify")
 	lsF, _ := lsSimplify.(*types.Func)
